@@ -691,8 +691,7 @@ Section Linear.
   Definition valid_open : Prop :=
     0 < lf_den maxlf /\ 0 < lf_den minlf /\
     2 * lf_num maxlf <= lf_den maxlf /\                                   (* maxLF <= 1/2 *)
-    lf_den maxlf <= lf_num maxlf * 31 /\                                  (* maxLF * minimum size >= 1 *)
-    2 * lf_num minlf * lf_den maxlf <= lf_num maxlf * lf_den minlf.       (* 2 * minLF <= maxLF *)
+    lf_den maxlf <= lf_num maxlf * 31.                                     (* maxLF * minimum size >= 1 *)
 
   Definition lp_load (t : lp) : Prop :=
     lp_n K V t = 0 \/ (lp_n K V t - 1) * lf_den maxlf < lf_num maxlf * lp_m K V t.
@@ -703,7 +702,7 @@ Section Linear.
 
   Lemma lp_load_half : forall t, lp_inv t -> 2 * lp_n K V t <= lp_m K V t /\ 32 <= lp_m K V t.
   Proof.
-    intros t [I Ld]. destruct Hvalid as (D1 & D2 & D3 & D4 & D5).
+    intros t [I Ld]. destruct Hvalid as (D1 & D2 & D3 & D4).
     destruct (l_pow _ I) as (e & Em & He).
     assert (M32 : 32 <= lp_m K V t).
     { rewrite Em. change 32 with (2 ^ 5). apply Nat.pow_le_mono_r; lia. }
@@ -724,7 +723,7 @@ Section Linear.
   Proof.
     intros d shuf t k v Hd Hinv Pm. pose proof Hinv as [I Ld].
     destruct (lp_load_half t Hinv) as [Hhalf M32].
-    destruct Hvalid as (D1 & D2 & D3 & D4 & D5).
+    destruct Hvalid as (D1 & D2 & D3 & D4).
     destruct d as [|d]; [lia|]. simpl.
     destruct (l_pow _ I) as (e & Em & He).
     destruct (lf_ge (lp_n K V t) (lp_m K V t) maxlf) eqn:G.
@@ -750,6 +749,59 @@ Section Linear.
       nia.
   Qed.
 
+  (** the re-insertion loop of a shrink: the rebuilt table may grow again while entries are re-inserted
+      (maxLF < 2*minLF); every step is an ordinary Put on a table that satisfies the invariant *)
+  Lemma lp_reinsert_gen : forall d shuf rest pre acc,
+      1 <= d -> perm_oracle shuf ->
+      NoDup (keys (pre ++ rest)) -> lp_inv acc ->
+      (forall k, lp_fun acc k = s_get pre k) ->
+      exists t', reinsert K V (lp_put K V eqb hash maxlf d shuf) rest acc = Ok t' /\ lp_inv t' /\
+                 (forall k, lp_fun t' k = s_get (pre ++ rest) k).
+  Proof.
+    intros d shuf rest. induction rest as [|[k v] rest IH]; intros pre acc Hd P ND I F.
+    - exists acc. rewrite app_nil_r. split; [reflexivity|]. split; [exact I|exact F].
+    - rewrite reinsert_cons.
+      destruct (lp_put_ok d shuf acc k v Hd I P) as (t1 & H1 & I1 & F1). rewrite H1; simpl.
+      assert (Hk : ~ In k (keys pre)).
+      { unfold Spec.keys in *. rewrite map_app in ND. simpl in ND. apply NoDup_remove_2 in ND.
+        intros H; apply ND. apply in_or_app; auto. }
+      destruct (IH (pre ++ [(k, v)]) t1 Hd P) as (t' & H' & I' & F').
+      + now rewrite <- app_assoc.
+      + exact I1.
+      + intros k'. rewrite F1, s_get_app'. unfold Spec.fupd. rewrite F.
+        destruct (eqb k k') eqn:E.
+        * apply eqb_spec in E; subst k'.
+          rewrite (proj2 (s_get_None K V eqb eqb_spec pre k) Hk).
+          unfold Spec.s_get; simpl. now rewrite (proj2 (eqb_spec k k) eq_refl).
+        * destruct (s_get pre k'); auto. unfold Spec.s_get; simpl. now rewrite E.
+      + exists t'. rewrite <- app_assoc in F'. simpl in F'. split; [exact H'|]. split; [exact I'|exact F'].
+  Qed.
+
+  Lemma lp_resize_gen : forall d shuf t e,
+      1 <= d -> lp_inv0 t -> perm_oracle shuf -> 5 <= e ->
+      exists t', lp_resize_with K V (lp_put K V eqb hash maxlf d shuf) shuf t (2 ^ e) = Ok t' /\ lp_inv t' /\
+                 (forall k, lp_fun t' k = lp_fun t k) /\ lp_n K V t' = lp_n K V t.
+  Proof.
+    intros d shuf t e Hd I Pm He. unfold lp_resize_with.
+    assert (L32 : 32 <= 2 ^ e) by (change 32 with (2 ^ 5); apply Nat.pow_le_mono_r; lia).
+    unfold lpMinM. destruct (Nat.ltb_spec (2 ^ e) 32); [lia|].
+    destruct (lp_new_ok e He) as (nt & Hn & In & Fn & Mn & Nn). rewrite Hn; simpl.
+    pose proof (lp_represents t shuf I Pm) as R.
+    destruct (lp_reinsert_gen d shuf (lp_all K V shuf t) [] nt Hd Pm) as (t' & H' & I' & F').
+    - simpl. apply R.
+    - split; auto. left; auto.
+    - intros k. rewrite Fn. reflexivity.
+    - rewrite H'; simpl. simpl in F'.
+      assert (Ft : forall k, lp_fun t' k = lp_fun t k).
+      { intros k. rewrite F'. symmetry. apply represents_fun; auto. }
+      set (t2 := {| lp_e := lp_e K V t'; lp_m := lp_m K V t'; lp_n := lp_n K V t' |}).
+      assert (E2 : t2 = t') by (destruct t'; reflexivity).
+      exists t2. rewrite E2. split; [reflexivity|]. split; [exact I'|]. split; [exact Ft|].
+      rewrite (lp_n_length t' (lp_all K V shuf t) (proj1 I')).
+      + symmetry. apply lp_n_length; auto.
+      + eapply represents_ext; [exact R|]. intros; now rewrite Ft.
+  Qed.
+
   Lemma frem_absent : forall (f : K -> option V) k k', f k = None -> frem f k k' = f k'.
   Proof.
     intros f k k' H. unfold Spec.frem. destruct (eqb k k') eqn:E; auto. apply eqb_spec in E. now subst.
@@ -761,7 +813,7 @@ Section Linear.
   Proof.
     intros d shuf t k Hd Hinv Pm. pose proof Hinv as [I Ld].
     destruct (lp_load_half t Hinv) as [Hhalf M32].
-    destruct Hvalid as (D1 & D2 & D3 & D4 & D5).
+    destruct Hvalid as (D1 & D2 & D3 & D4).
     destruct (l_pow _ I) as (e & Em & He).
     pose proof (l_len _ I) as L. pose proof (l_valid _ I) as Hv. pose proof (l_dist _ I) as D.
     pose proof (l_n _ I) as Nn.
@@ -842,22 +894,10 @@ Section Linear.
         * destruct e as [|e]; [lia|].
           assert (Hhalf2 : lp_m K V t / 2 = 2 ^ e).
           { rewrite Em, Nat.pow_succ_r', Nat.mul_comm, Nat.div_mul; lia. }
-          rewrite Hhalf2. apply lf_le_true in G. rewrite M2, Em, Nat.pow_succ_r' in G.
-          assert (Hn2e : lp_n K V t2 * lf_den maxlf <= lf_num maxlf * (2 ^ e)).
-          { apply Nat.mul_le_mono_pos_r with (p := lf_den minlf); auto.
-            apply Nat.le_trans with (lf_den maxlf * (lf_num minlf * (2 * 2 ^ e))).
-            - rewrite <- Nat.mul_assoc, (Nat.mul_comm (lp_n K V t2)), <- Nat.mul_assoc.
-              apply Nat.mul_le_mono_l. rewrite Nat.mul_comm. exact G.
-            - replace (lf_den maxlf * (lf_num minlf * (2 * 2 ^ e))) with ((2 * lf_num minlf * lf_den maxlf) * 2 ^ e) by lia.
-              replace (lf_num maxlf * 2 ^ e * lf_den minlf) with ((lf_num maxlf * lf_den minlf) * 2 ^ e) by lia.
-              apply Nat.mul_le_mono_r. exact D5. }
-          destruct (lp_resize_ok d shuf t2 e I2 Pm ltac:(lia)) as (t3 & H3 & I3 & F3 & M3 & N3).
-          { rewrite Em, Nat.pow_succ_r' in Hhalf. lia. }
-          { intros j Hj. apply lf_ge_false. nia. }
-          rewrite H3. cbn [bind]. exists t3. split; [reflexivity|]. split.
-          -- split; auto. unfold lp_load. rewrite M3, N3.
-             destruct (Nat.eq_dec (lp_n K V t2) 0); [left; auto|right]. nia.
-          -- intros k'. now rewrite F3, F2.
+          rewrite Hhalf2.
+          destruct (lp_resize_gen d shuf t2 e Hd I2 Pm ltac:(lia)) as (t3 & H3 & I3 & F3 & N3).
+          rewrite H3. cbn [bind]. exists t3. split; [reflexivity|]. split; [exact I3|].
+          intros k'. now rewrite F3, F2.
       + exists t2. split; [reflexivity|]. split; [split; auto|exact F2].
     - destruct Ho as [Hemp Habs].
       assert (Hfun : lp_fun t k = None).
